@@ -391,7 +391,8 @@ def main():
         print("gen_tables: ok; changed:", changed)
         return 0
     except TieBroken as e:
-        with open(man_path, "w") as f:
+        # keep the last good manifest (constants for the oracle checks); record the error separately
+        with open(os.path.join(BUILD, "gen_error.json"), "w") as f:
             json.dump({"ok": False, "error": str(e)}, f, indent=1)
         print("gen_tables: TIE BROKEN:", e, file=sys.stderr)
         return 2
